@@ -141,7 +141,12 @@ def _v6_prefix(body: bytes, pos: int, layout: str) -> tuple[dict, int]:
     return {'prefix': f'{net}/{bits}', 'offset': offset, 'padding': padding}, pos + 2 + n
 
 
-def _operations(body: bytes, pos: int, ctype: int) -> tuple[list[dict], int]:
+def _operations(body: bytes, pos: int, ctype: int, count: int | None = None) -> tuple[list[dict], int]:
+    """the {operator, value} pairs of one component up to its end-of-list bit.
+
+    With `count` the reader takes exactly that many pairs and only reports the end-of-list bits: a check which knows
+    how many tests were written uses it to say which bit is wrong instead of losing its place in the octets.
+    """
     terms: list[dict] = []
     bitmask = ctype in BITMASK_TYPES
     while True:
@@ -166,12 +171,17 @@ def _operations(body: bytes, pos: int, ctype: int) -> tuple[list[dict], int]:
                 'value': int.from_bytes(raw, 'big'),
             }
         )
-        if op & 0x80:
+        if count is None and op & 0x80:
+            return terms, pos
+        if count is not None and len(terms) == count:
             return terms, pos
 
 
-def decode_body(body: bytes, afi: int, vpn: bool = False, ordered: bool = True, ipv6_layout: str = 'rfc8956') -> dict:
-    """the rule inside one NLRI value: {'rd': hex|None, 'components': [{'type', 'prefix', 'offset'} | {'type', 'terms'}]}"""
+def decode_body(body: bytes, afi: int, vpn: bool = False, ordered: bool = True, ipv6_layout: str = 'rfc8956', counts: dict | None = None) -> dict:
+    """the rule inside one NLRI value: {'rd': hex|None, 'components': [{'type', 'prefix', 'offset'} | {'type', 'terms'}]}
+
+    counts ({component type: number of pairs}) switches the operator components to the guided reading of _operations.
+    """
     pos = 0
     rd = None
     if vpn:
@@ -196,7 +206,7 @@ def decode_body(body: bytes, afi: int, vpn: bool = False, ordered: bool = True, 
                 entry, pos = _v6_prefix(body, pos, ipv6_layout)
             entry['type'] = ctype
         else:
-            terms, pos = _operations(body, pos, ctype)
+            terms, pos = _operations(body, pos, ctype, counts.get(ctype) if counts else None)
             entry = {'type': ctype, 'terms': terms}
         comps.append(entry)
     return {'rd': rd, 'components': comps}
